@@ -264,6 +264,7 @@ Lemma g_full_step ls fl fc st m : P (f_orig st) -> P (m_orig m) ->
   P (f_orig (fst (sm_full_step ls fl fc st m))) /\ Forall (chunkP P) (snd (sm_full_step ls fl fc st m)).
 Proof.
   intros Hst Hm. rewrite sm_full_step_eq.
+  destruct (step_guard st m); [split; [exact Hst|constructor]|].
   assert (P1 : P (f_orig (fst (ph1 ls st m))) /\ Forall (chunkP P) (snd (ph1 ls st m))).
   { unfold ph1. destruct (f_active st && (f_line st <=? len ls)); [|split; [exact Hst|constructor]].
     destruct (line_at ls (f_line st)) as [line|]; [|split; [exact Hst|constructor]].
@@ -274,7 +275,9 @@ Proof.
   assert (P2 : P (f_orig (fst (ph2 ls st1 m))) /\ Forall (chunkP P) (snd (ph2 ls st1 m))).
   { unfold ph2. destruct ((f_line st1 <? g_line m) && (0 <? f_col st1)); [|split; [exact H1|constructor]].
     cbn [fst snd f_orig]. split; [exact H1|]. destruct (f_line st1 <=? len ls); [|constructor].
-    destruct (line_at ls (f_line st1)); repeat constructor. exact PN. }
+    destruct (line_at ls (f_line st1)); [|constructor]. cbv zeta.
+    match goal with |- context [is_nil ?x] => destruct (is_nil x) end; [constructor|].
+    repeat constructor. exact PN. }
   destruct (ph2 ls st1 m) as [st2 ev2]. cbn [fst snd] in P2. destruct P2 as [H2 E2].
   assert (P3 : P (f_orig (fst (ph3 ls st2 m))) /\ Forall (chunkP P) (snd (ph3 ls st2 m))).
   { unfold ph3. destruct (f_line st2 <? g_line m); [|split; [exact H2|constructor]].
@@ -283,7 +286,9 @@ Proof.
   assert (P4 : P (f_orig (fst (ph4 ls st3 m))) /\ Forall (chunkP P) (snd (ph4 ls st3 m))).
   { unfold ph4. destruct (f_col st3 <? g_col m); [|split; [exact H3|constructor]].
     cbn [fst snd f_orig]. split; [exact H3|]. destruct (f_line st3 <=? len ls); [|constructor].
-    destruct (line_at ls (f_line st3)); repeat constructor. exact PN. }
+    destruct (line_at ls (f_line st3)); [|constructor]. cbv zeta.
+    match goal with |- context [is_nil ?x] => destruct (is_nil x) end; [constructor|].
+    repeat constructor. exact PN. }
   destruct (ph4 ls st3 m) as [st4 ev4]. cbn [fst snd] in P4. destruct P4 as [H4 E4].
   cbn [fst snd]. split.
   - unfold ph5. destruct (m_orig m) as [o|]; [|exact H4].
